@@ -53,6 +53,12 @@ ImplMonotone ==
      \A k \in Impls : \A j \in 1..Len(ev.ws) :
         ev.ws[j] > omega => RLe(Logged(k), ev.val[k][j])
 
+(* ws is a list in any order (ascending, descending, shuffled, repeated        *)
+(* values): the value at index wi depends on ws[wi] only - every requirement   *)
+(* here is per index; equal frequencies get equal values                        *)
+ImplPointwise ==
+  Done => \A k \in Impls : \A j \in 1..Len(ev.ws) : ev.ws[j] = omega => ev.val[k][j] = Logged(k)
+
 (* compiled and Python implementations agree *)
 ImplAgree == Done => \A k1, k2 \in Impls : Logged(k1) = Logged(k2)
 
